@@ -549,7 +549,10 @@ func init() {
 									if (order > 2 && nAll+nType < 3) || (kind == 1 && failAt == 2) {
 										continue
 									}
-									jobs = append(jobs, J(sessPkg, "H_C19_send", nAll, nType, order, failAt, kind, 1+failAt%2))
+									jobs = append(jobs, J(sessPkg, "H_C19_send", nAll, nType, order, failAt, kind, 1+failAt%2, 0))
+									if nAll+nType >= 1 && failAt == 0 {
+										jobs = append(jobs, J(sessPkg, "H_C19_send", nAll, nType, order, failAt, kind, 1, 1))
+									}
 								}
 							}
 							for kind := 0; kind < 8; kind += 3 {
@@ -748,6 +751,33 @@ func init() {
 			Assumptions:  conc,
 			Outside:      "that cancelling the handler context makes Acceptor.serve / Initiator.Serve close the socket is covered for the peer-close case by C04's plumbing harness only; real-time slack",
 			Replay:       "engine",
+		}
+	})
+}
+
+func init() {
+	extraSpecs = append(extraSpecs, func(m map[string]*CheckSpec) {
+		m["C20"] = &CheckSpec{
+			ID:      "C20",
+			Lockset: true,
+			Jobs: func(tier string) []Job {
+				var jobs []Job
+				for side := 0; side <= 1; side++ {
+					for kind := 0; kind < 8; kind++ {
+						jobs = append(jobs, J(sessPkg, "H_C20_lockset", side, kind))
+					}
+				}
+				return jobs
+			},
+			Extra: func(tier string, ev *Evidence) ([]string, error) {
+				return raceScenario(ev)
+			},
+			Explanation: "Two stages. (1) Symbolic lockset analysis: every role the library's threading allows to run concurrently (two application senders, the inbound dispatch goroutine with TestRequest/Heartbeat/ResendRequest/Logon/application/Logout messages of symbolic content, a state query, event registration, one iteration of each timer goroutine including the probe and the disconnect path, Session.Stop) executes its steps in the engine, which records every load/store/map access made by library code with the set of mutexes held and whether it was atomic; a candidate is a pair of accesses of two different roles to the same cell, at least one a write, not both atomic, with disjoint locksets, on any feasible path. Lockset discipline is stricter than race freedom, so candidates are listed in the evidence but are not violations by themselves. (2) Confirmation: a native scenario that runs all these roles really concurrently (timers with a 1 s interval actually expire) is built with -race; a data race reported by the Go race detector with a frame in library code is a violation.",
+			Rule:        "case = role-step path (lockset) / race-detector run per role (confirmation)",
+			Bounds:      map[string]string{"quick": "one step (or two) per role, both session roles; race scenario ~4 s per role", "thorough": "same"},
+			Assumptions: append(append([]string{}, commonAssumptions...), "the Go race detector reports only real races (no false positives) but only for interleavings that occur in the run; the lockset stage covers all inputs of the role steps but over-approximates concurrency"),
+			Outside:     "races that need more than the listed steps per role to set up; HandlerPool.Remove; the Acceptor/Initiator/Conn goroutine plumbing",
+			Replay:      "engine",
 		}
 	})
 }
